@@ -101,3 +101,14 @@ package keeper
 //@   flag assumed
 //@   modifies store(ctx, "oracle")
 //@   ensures err != nil ==> state(ctx) == old(state(ctx))
+
+// C05 (voting power is priced with the latest recorded price): the default price stands in for an asset only when the
+// asset is the native token, no price round is recorded, or the recorded price is not a positive number - a recorded
+// positive price, however large, is used as it is.
+//@ func (Keeper).GetMultipleAssetsPrices
+//@   flag noframe
+//@   flag pure=GetParams,GetTokenIDFromAssetID,GetPriceTRLatest,NewIntFromString,Wrapf,IsInt64
+//@   before[C05.gmap.default] cosmossdk.io/math.NewInt requires assetID == g("x/assets/types.ExocoreAssetID") || !res_GetPriceTRLatest_1 ||
+//@        isnil(res_NewIntFromString_0) || val(res_NewIntFromString_0) <= 0
+//@ loop #1
+//@   invariant true
